@@ -29,7 +29,7 @@ func convertStringIndex(rawIndex any, s string) (int, int, error) {
 	}
 	// Not slice
 	r, size := utf8.DecodeRuneInString(s[index.Lower:])
-	if r == utf8.RuneError {
+	if isInvalidRune(r, size) {
 		return 0, 0, errIndexNotAtRuneBoundary
 	}
 	return index.Lower, index.Lower + size, nil
@@ -39,14 +39,19 @@ func startsWithRuneBoundary(s string) bool {
 	if s == "" {
 		return true
 	}
-	r, _ := utf8.DecodeRuneInString(s)
-	return r != utf8.RuneError
+	return !isInvalidRune(utf8.DecodeRuneInString(s))
 }
 
 func endsWithRuneBoundary(s string) bool {
 	if s == "" {
 		return true
 	}
-	r, _ := utf8.DecodeLastRuneInString(s)
-	return r != utf8.RuneError
+	return !isInvalidRune(utf8.DecodeLastRuneInString(s))
+}
+
+// isInvalidRune reports whether the result of decoding a rune signals an
+// invalid encoding, as opposed to a correctly encoded U+FFFD (which is 3 bytes
+// wide).
+func isInvalidRune(r rune, size int) bool {
+	return r == utf8.RuneError && size <= 1
 }
